@@ -10,13 +10,13 @@ def jobs(tier):
     def add(name, params, bound, nproc=1):
         J.append(Job('C10.%s' % name, 'harness/c_ondemand.cpp', '@h_ondemand', [3] + params, keep=['parseFloatingFast', 'ParseFloatingNormalFast', 'parseFloatEiselLemire64', 'AtofNative'],
                      stubs='stubs_number', nproc=nproc, bound=bound, timeout=3400, max_paths=3000000))
-    N = 5 if q else 6
+    N = 4 if q else 6
     for n in range(1, N + 1):
-        add('free%d' % n, [-1, 0, n], 'every valid JSON text of length %d x all 14 paths' % n, nproc=2 if n < 5 else 16)
+        add('free%d' % n, [-1, 0, n], 'every valid JSON text of length %d x all 14 paths' % n, nproc=4 if n < 5 else 16)
     for arr in (0, 1):
         for esc in ((0, 1) if not arr else (0,)):
             add('tmpl.a%d.e%d' % (arr, esc), [-1, 2, arr, esc], ('[V,W,X]' if arr else '{"a":V,"b":W,"a":X}' + (' with key a spelled \\u0061' if esc else '')) + ' with 2-byte symbolic values x all 14 paths', nproc=8)
-    fills = [31, 32, 33, 63, 64, 65] if q else list(range(28, 37)) + list(range(60, 69))
+    fills = [31, 33, 64] if q else list(range(28, 37)) + list(range(60, 69))
     for sk in range(5):
         for kind in (0, 1):
             for f in fills:
